@@ -123,6 +123,13 @@ impl Backend {
             Backend::Http(h) => h.exec(v, input),
         }
     }
+
+    fn prelude(&mut self, v: &Vector, input: &Input) -> Option<Obs> {
+        match self {
+            Backend::Direct(d) => d.prelude(v, input),
+            Backend::Http(h) => h.prelude(v, input),
+        }
+    }
 }
 
 struct Site {
@@ -331,7 +338,20 @@ fn run_behaviour(
                 std::process::abort();
             }
             let t0 = std::time::Instant::now();
-            let obs = site.backend.exec(&v, &input);
+            // requests that set the scene are not judged (unless one of
+            // them kills the process); the state they leave is where the
+            // judged request starts from
+            let early = if input.prelude.is_empty() { None } else {
+                let res = site.backend.prelude(&v, &input);
+                if res.is_none() {
+                    before = site.backend.digest();
+                }
+                res
+            };
+            let obs = match early {
+                Some(obs) => obs,
+                None => site.backend.exec(&v, &input),
+            };
             driver.bump("exec_us", t0.elapsed().as_micros() as u64);
             driver.bump("inputs", 1);
             let dead = matches!(obs.out.as_str(), "panic" | "exit");
